@@ -497,6 +497,20 @@ def _ordered_after(prog, cons, y, dest):
     return False
 
 
+def _scope_ordered_after(prog, cons, root, dest):
+    """Scope rooted at case node `root` can only start after `dest` is final (its switch's decider depends on
+    a consumer of the recurrent result)."""
+    rcons = {c for c, _, k in cons.get(dest, []) if k == 'dest'}
+    if not rcons:
+        return False
+    for nid, node in prog['nodes'].items():
+        for _, m in node.get('params', []):
+            if m[0] == 'sw' and any(c == root for _, c in m[3]):
+                if rcons & (ancestors(prog, m[2]) | {m[2]}):
+                    return True
+    return False
+
+
 def analyze(prog):
     """Hostile-family tags (structural)."""
     tags = set()
@@ -564,34 +578,46 @@ def analyze(prog):
     for dest, ps in pairs.items():
         if len(ps) > 1:
             tags.add('rec_multi_pair')
-    # scope instances: every _run_dag call of the engine is one scope (main pipeline, each one-of
-    # candidate, each execution of a switch inside a scope runs the case sub-pipeline as a new scope)
-    def count(root, dest, depth=0):
-        if depth > 6:
-            return 0
-        ec = eager_closure(prog, root)
-        n = 1 if dest in ec else 0
-        for x in ec:
-            for _, m in nodes[x].get('params', []):
-                if m[0] == 'sw':
-                    # a case sub-pipeline that can only start after dest is final (its decider depends on a
-                    # consumer of the recurrent result) never overlaps with the iterations: not a second scope
-                    rcons = {c for c, _, k in cons.get(dest, []) if k == 'dest'}
-                    if rcons and rcons & (ancestors(prog, m[2]) | {m[2]}):
-                        continue
-                    # the selected case is not known statically: take the maximum over cases
-                    n += max([count(c, dest, depth + 1) for _, c in m[3]] or [0])
+    # scope instances: every _run_dag call of the engine is one scope: the main pipeline; for every scope
+    # that contains a one-of consumer, one scope per candidate; for every scope that contains a switch
+    # consumer, one scope for a case (over-approximated: every case), unless the case can only start after a
+    # recurrent destination is final.  A construct consumer that occurs in k scopes spawns its sub-scopes k times.
+    def instances():
+        out = []
+        st = [(prog['output'], 0)]
+        while st and len(out) < 400:
+            root, d = st.pop()
+            out.append(root)
+            if d > 6:
+                continue
+            for x in eager_closure(prog, root):
+                for _, m in nodes[x].get('params', []):
+                    if m[0] == 'sw':
+                        for _, c in m[3]:
+                            st.append((c, d + 1))
+                    elif m[0] == 'oneof':
+                        for c in m[1]:
+                            st.append((c, d + 1))
+        return out
+    inst = instances()
+    closures = [(r, eager_closure(prog, r)) for r in inst]
+
+    def occ(x, dest_for_order=None):
+        n = 0
+        for r, clo in closures:
+            if x in clo:
+                if dest_for_order is not None and r != prog['output'] and _scope_ordered_after(prog, cons, r, dest_for_order):
+                    continue
+                n += 1
         return n
-    cand_nodes = [n for n in reach if any(k == 'cand' for _, _, k in cons[n])]
     for n in reach:
         if n == prog['input']:
             continue
-        if count(prog['output'], n) + sum(count(c, n) for c in cand_nodes) > 1:
+        if occ(n) > 1:
             tags.add('node_in_two_scopes')
             break
     for start, dest, mx, consumer in recs:
-        nsc = count(prog['output'], dest) + sum(count(c, dest) for c in cand_nodes)
-        if nsc > 1:
+        if occ(dest, dest) > 1:
             tags.add('rec_two_scopes')
     starts = [s for s, _, _, _ in recs]
     if len(set((s, d) for s, d, _, _ in recs)) != len(set(starts)):
